@@ -2166,6 +2166,9 @@ def stop_gradient_value(v):
 def _sg_atom(a):
     if a[0] == 'P':
         return a[:4] + (True,)
+    if a[0] in ('X', 'T') and any(is_ad_tag(d_) for d_ in atom_deps(a)):
+        raise Finding("stop_gradient is applied to the variable of an enclosing differentiation: the derivative with respect to the "
+                      "point is cut where the value depends on it")
     if a[0] == 'U':
         raise Top("stop_gradient applied to a network value")
     return a
